@@ -8,6 +8,8 @@
   Filters and constructions outside this language are covered by the end-to-end scan of harness/props/c15.py only.
 -/
 import JinjaV.Lemmas.AutoescClean
+import JinjaV.Model.SelectAutoescape
+import JinjaV.Gen.MarkupSites
 
 namespace JinjaV.C15
 open JinjaV.Escape JinjaV.HtmlFilt JinjaV.Autoesc
@@ -49,5 +51,88 @@ def exTerm : Tm :=
 
 example : outOn (fun l => [l]) exTerm [.plain "<m1>".toList] =
     "[&lt;m1&gt;a\n&lt;m1&gt;b &lt;m1&gt;&#39;a\nb &lt;m1&gt;&lt;i&gt;]".toList := by decide +kernel
+
+/-! ## where text is marked safe: the inventory READ from the source -/
+
+/-- **markup_sites_mapped**: every `Markup(…)` call in filters.py, utils.py, runtime.py, ext.py, nodes.py, environment.py and
+    every piece of emitted code mentioning `Markup` in compiler.py (READ on every run, Gen/MarkupSites.lean) is one of the
+    sites this model was written against; each is covered by the clause named beside it.  A new or changed site makes
+    this fail: somebody has to say which clause covers it (or the end-to-end scan has to find the leak). -/
+theorem markup_sites_mapped : Gen.MarkupSites.sites = [
+    ("filters", "do_xmlattr", "call: rv"),   -- C24.xmlattr_values: escaped keys and values
+    ("filters", "do_urlize", "call: rv"),   -- C24.urlize_shape
+    ("filters", "do_indent", "call: newline"),   -- the constant newline (HtmlFilt.indentArgs)
+    ("filters", "do_striptags", "call: str(value)"),   -- only to call .striptags(); a plain str is returned
+    ("filters", "do_mark_safe", "call: value"),   -- |safe: excluded by the property
+    ("utils", "generate_lorem_ipsum", "call: '\\n'.join((f'<p>{markupsafe.escape(x)}</p>' for x in result))"),   -- constant words, each escaped
+    ("utils", "htmlsafe_json_dumps", "call: dumps(obj, **kwargs).replace('<', '\\\\u003c').replace('>', '\\\\u003e').replace('&', '\\\\u0026').replace(\"'\", '\\\\u0027')"),   -- C24.tojson_clean
+    ("runtime", "markup_join", "call: ''"),   -- Tm.cat (markupJoin): Markup("").join escapes the operands
+    ("runtime", "BlockReference._async_call", "call: rv"),   -- Tm.blk
+    ("runtime", "BlockReference.__call__", "call: rv"),   -- Tm.blk
+    ("runtime", "Macro._async_invoke", "call: rv"),   -- Tm.blk
+    ("runtime", "Macro._invoke", "call: rv"),   -- Tm.blk
+    ("ext", "_make_new_gettext.gettext", "call: rv"),   -- translation strings count as template text: excluded
+    ("ext", "_make_new_ngettext.ngettext", "call: rv"),   -- translation strings count as template text: excluded
+    ("ext", "_make_new_pgettext.pgettext", "call: rv"),   -- translation strings count as template text: excluded
+    ("ext", "_make_new_npgettext.npgettext", "call: rv"),   -- translation strings count as template text: excluded
+    ("nodes", "TemplateData.as_const", "call: self.data"),   -- Tm.text
+    ("nodes", "Concat.as_const", "call: ''"),   -- Tm.cat folded at compile time
+    ("nodes", "MarkSafe.as_const", "call: self.expr.as_const(eval_ctx)"),   -- produced by extensions only (i18n): excluded
+    ("nodes", "MarkSafeIfAutoescape.as_const", "call: expr"),   -- produced by extensions only (i18n): excluded
+    ("environment", "TemplateModule.__html__", "call: concat(self._body_stream)"),   -- Tm.blk of a module body
+    ("compiler", "CodeGenerator.return_buffer_contents", "emits: return Markup(concat("),   -- Tm.blk (macro / call block body)
+    ("compiler", "CodeGenerator.return_buffer_contents", "emits: return Markup(concat("),   -- Tm.blk (macro / call block body)
+    ("compiler", "CodeGenerator.visit_AssignBlock", "emits: = (Markup if context.eval_ctx.autoescape else identity)("),   -- Tm.blk (set block)
+    ("compiler", "CodeGenerator.visit_TemplateData", "emits: (Markup if context.eval_ctx.autoescape else identity)("),   -- Tm.text
+    ("compiler", "CodeGenerator.visit_Filter", "emits: (Markup(concat("),   -- Tm.blk (filter block / filtered set block)
+    ("compiler", "CodeGenerator.visit_Filter", "emits: Markup(concat("),   -- Tm.blk (filter block / filtered set block)
+    ("compiler", "CodeGenerator.visit_MarkSafe", "emits: Markup("),   -- produced by extensions only (i18n): excluded
+    ("compiler", "CodeGenerator.visit_MarkSafeIfAutoescape", "emits: (Markup if context.eval_ctx.autoescape else identity)(")] := rfl   -- produced by extensions only (i18n): excluded
+
+/-! ## select_autoescape -/
+
+open JinjaV.SelectAutoescape in
+/-- **select_autoescape_spec**: the name-based selector returns `default_for_string` for a template without a name; otherwise
+    it looks at the lower-cased name only (case-insensitive for every idempotent `lower`), and a suffix match with an
+    enabled extension wins over everything, then a match with a disabled extension, then `default` -/
+theorem select_autoescape_spec (lower : List Char → List Char) (enabled disabled : List (List Char)) (dfs dflt : Bool) :
+    select lower enabled disabled dfs dflt none = dfs ∧
+    (∀ name, (∃ e ∈ enabled, (pattern lower e).isSuffixOf (lower name) = true) →
+        select lower enabled disabled dfs dflt (some name) = true) ∧
+    (∀ name, (∀ e ∈ enabled, (pattern lower e).isSuffixOf (lower name) = false) →
+        (∃ d ∈ disabled, (pattern lower d).isSuffixOf (lower name) = true) →
+        select lower enabled disabled dfs dflt (some name) = false) ∧
+    (∀ name, (∀ e ∈ enabled, (pattern lower e).isSuffixOf (lower name) = false) →
+        (∀ d ∈ disabled, (pattern lower d).isSuffixOf (lower name) = false) →
+        select lower enabled disabled dfs dflt (some name) = dflt) ∧
+    ((∀ s, lower (lower s) = lower s) → ∀ name,
+        select lower enabled disabled dfs dflt (some (lower name)) = select lower enabled disabled dfs dflt (some name)) := by
+  have hany : ∀ (n : List Char) (l : List (List Char)),
+      endsWithAny n (l.map (pattern lower)) = true ↔ ∃ e ∈ l, (pattern lower e).isSuffixOf n = true := by
+    intro n l
+    simp [endsWithAny, List.any_eq_true]
+  have hnone : ∀ (n : List Char) (l : List (List Char)), (∀ e ∈ l, (pattern lower e).isSuffixOf n = false) →
+      endsWithAny n (l.map (pattern lower)) = false := by
+    intro n l h
+    cases hc : endsWithAny n (l.map (pattern lower)) with
+    | false => rfl
+    | true =>
+      obtain ⟨e, he, hs⟩ := (hany n l).mp hc
+      rw [h e he] at hs; cases hs
+  refine ⟨rfl, ?_, ?_, ?_, ?_⟩
+  · intro name h
+    simp only [select, (hany _ _).mpr h, ↓reduceIte]
+  · intro name h1 h2
+    simp only [select, hnone _ _ h1, (hany _ _).mpr h2, Bool.false_eq_true, ↓reduceIte]
+  · intro name h1 h2
+    simp only [select, hnone _ _ h1, hnone _ _ h2, Bool.false_eq_true, ↓reduceIte]
+  · intro hl name
+    simp only [select, hl]
+
+example : JinjaV.SelectAutoescape.select (fun s => s.map Char.toLower) ["html".toList, ".XML".toList] ["txt".toList, "html".toList] true false
+      (some "A/Page.HTML".toList) = true ∧
+    JinjaV.SelectAutoescape.select (fun s => s.map Char.toLower) ["html".toList] ["txt".toList] true true (some "x.TXT".toList) = false ∧
+    JinjaV.SelectAutoescape.select (fun s => s.map Char.toLower) ["html".toList] ["txt".toList] true false (some "xhtml".toList) = false := by
+  decide +kernel
 
 end JinjaV.C15
